@@ -30,8 +30,11 @@ SubChoices == {"a", "b", "c", "d"}       \* the subproject's own (yielding) popt
 DlValues == {"shared", "static", "both"}
 DlDefault == "shared"
 XDefault == "xd"
-XValues == {"xv"}
-Keys == {"popt", "xopt", "dl", "subdl", "subpopt", "subflag", "level"}
+XValues == {"xv", ""}                    \* "" = the empty string, given explicitly (-Dxopt=)
+Keys == {"popt", "xopt", "dl", "subdl", "subpopt", "subflag", "level", "arr"}
+\* the array option `arr` (default ['x']); its value is written as comma-joined text: "" = the empty array (-Darr=)
+ArrDefault == "x"
+ArrValues == {"", "y"}
 \* the integer option `level`: values are written as text; a declared range [min, max] is modelled by the set of
 \* the three probe values it admits (2 < raised min 4; 8 > lowered max 6; 5 = the declared default, always inside)
 LevelUniverse == {"2", "5", "8"}
@@ -42,13 +45,14 @@ EmptyCmd == [k \in Keys |-> None]
 \* the option file of the top-level project
 InitFile == [ch |-> {"a", "b", "c"}, def |-> "a", x |-> FALSE, lr |-> {"2", "5", "8"}]
 
-NoDir == [exists |-> FALSE, v |-> None, ch |-> {}, x |-> None, dl |-> None, subdl |-> None, sp |-> None, sf |-> None, lv |-> None, lr |-> {}, cmd |-> EmptyCmd]
+NoDir == [exists |-> FALSE, v |-> None, ch |-> {}, x |-> None, dl |-> None, subdl |-> None, sp |-> None, sf |-> None, lv |-> None, lr |-> {}, ar |-> None, cmd |-> EmptyCmd]
 
 \* ---- assignments -D ------------------------------------------------------------
 \* D: a function from a subset of Keys to values
 ValidFor(ch, hasx, lr, D) ==
     /\ ("popt" \in DOMAIN D => D["popt"] \in ch)
     /\ ("level" \in DOMAIN D => D["level"] \in lr)
+    /\ ("arr" \in DOMAIN D => D["arr"] \in ArrValues)
     /\ ("xopt" \in DOMAIN D => hasx)
     /\ ("dl" \in DOMAIN D => D["dl"] \in DlValues)
     /\ ("subdl" \in DOMAIN D => D["subdl"] \in DlValues)
@@ -63,6 +67,7 @@ Apply(st, D) ==
                !.sp = IF "subpopt" \in DOMAIN D THEN D["subpopt"] ELSE @,
                !.sf = IF "subflag" \in DOMAIN D THEN D["subflag"] ELSE @,
                !.lv = IF "level" \in DOMAIN D THEN D["level"] ELSE @,
+               !.ar = IF "arr" \in DOMAIN D THEN D["arr"] ELSE @,
                !.cmd = [k \in Keys |-> IF k \in DOMAIN D THEN D[k] ELSE @[k]]]
 
 CmdAsD(cmd) == [k \in {k \in Keys : cmd[k] # None} |-> cmd[k]]
@@ -70,7 +75,7 @@ CmdAsD(cmd) == [k \in {k \in Keys : cmd[k] # None} |-> cmd[k]]
 \* a configuration made from scratch: current defaults of the option file, then the given command line
 Fresh(file, cmd) ==
     Apply([exists |-> TRUE, v |-> file.def, ch |-> file.ch, x |-> IF file.x THEN XDefault ELSE None,
-           dl |-> DlDefault, subdl |-> None, sp |-> None, sf |-> None, lv |-> LevelDefault, lr |-> file.lr, cmd |-> EmptyCmd], CmdAsD(cmd))
+           dl |-> DlDefault, subdl |-> None, sp |-> None, sf |-> None, lv |-> LevelDefault, lr |-> file.lr, ar |-> ArrDefault, cmd |-> EmptyCmd], CmdAsD(cmd))
 
 \* the option file is read again: a new option gets its default, a removed one vanishes, a changed choice
 \* list keeps the old value when still valid and otherwise falls back to the new default
@@ -81,7 +86,7 @@ Sync(st, file) ==
                !.lr = file.lr,
                !.lv = IF st.lv \in file.lr THEN st.lv ELSE LevelDefault]
 
-SameValues(s, t) == s.v = t.v /\ s.x = t.x /\ s.dl = t.dl /\ s.subdl = t.subdl /\ s.sp = t.sp /\ s.sf = t.sf /\ s.lv = t.lv
+SameValues(s, t) == s.v = t.v /\ s.x = t.x /\ s.dl = t.dl /\ s.subdl = t.subdl /\ s.sp = t.sp /\ s.sf = t.sf /\ s.lv = t.lv /\ s.ar = t.ar
 
 \* ---- events ----------------------------------------------------------------------
 \* [a, D, k, e, ok]: a = action name; D = assignments; k = key of -U; e = edit; ok = meant to succeed
@@ -137,7 +142,7 @@ Proj(st) == [exists |-> st.exists, v |-> st.v, ch |-> st.ch, x |-> st.x, dl |-> 
              subdl |-> IF st.subdl = None THEN st.dl ELSE st.subdl,
              sp |-> IF st.sp = None THEN st.v ELSE st.sp,
              sf |-> IF ~st.exists THEN None ELSE IF st.sf = None THEN FlagParent ELSE st.sf,
-             lv |-> st.lv, cmd |-> st.cmd]
+             lv |-> st.lv, ar |-> st.ar, cmd |-> st.cmd]
 
 \* ---- event alphabets ---------------------------------------------------------------
 Single(k, v) == (k :> v)
@@ -151,8 +156,8 @@ Edits == { [t |-> "addx", ch |-> {}, def |-> None], [t |-> "removex", ch |-> {},
 \* every single assignment (and no assignment); the model checker explores all of them
 AllD == {Empty} \cup {Single("popt", v) : v \in PoptUniverse} \cup {Single("xopt", v) : v \in XValues}
         \cup {Single("dl", v) : v \in DlValues} \cup {Single("subdl", v) : v \in DlValues}
-        \cup {Single("subpopt", v) : v \in SubChoices} \cup {Single("subflag", "true")}
-        \cup {Single("level", v) : v \in LevelUniverse}
+        \cup {Single("subpopt", v) : v \in SubChoices} \cup {Single("subflag", v) : v \in {"true", "false"}}
+        \cup {Single("level", v) : v \in LevelUniverse} \cup {Single("arr", v) : v \in ArrValues}
 FullAlphabet ==
     {Ev("Setup", D, None, NoEdit, TRUE) : D \in AllD} \cup {Ev("Configure", D, None, NoEdit, TRUE) : D \in AllD \ {Empty}}
     \cup {Ev("Reconfigure", D, None, NoEdit, TRUE) : D \in AllD}
@@ -165,10 +170,11 @@ FullAlphabet ==
 
 \* the smaller alphabet whose histories are all replayed through the real CLI
 ReplayAlphabet ==
-    {Ev("Setup", D, None, NoEdit, TRUE) : D \in {Empty, Single("popt", "b"), Single("popt", "c"), Single("subdl", "static"), Single("subpopt", "a"), Single("level", "2")}}
+    {Ev("Setup", D, None, NoEdit, TRUE) : D \in {Empty, Single("popt", "b"), Single("popt", "c"), Single("subdl", "static"), Single("subdl", "shared"), Single("subpopt", "a"), Single("level", "2")}}
     \cup {Ev("Configure", D, None, NoEdit, TRUE) :
             D \in {Single("popt", "c"), Single("dl", "both"), Single("subdl", "static"), Single("subdl", "shared"),
-                   Single("subpopt", "d"), Single("xopt", "xv"), Single("subflag", "true"), Single("level", "8")}}
+                   Single("subpopt", "d"), Single("xopt", "xv"), Single("xopt", ""), Single("subflag", "true"), Single("subflag", "false"),
+                   Single("level", "8"), Single("arr", "")}}
     \cup {Ev("Reconfigure", D, None, NoEdit, TRUE) : D \in {Empty, Single("popt", "a")}}
     \cup {Ev("ConfigureU", Empty, k, NoEdit, TRUE) : k \in {"subdl", "subpopt", "subflag"}}
     \cup {Ev("Wipe", Empty, None, NoEdit, TRUE)}
